@@ -13,7 +13,7 @@ import (
 // Export of the parsed AST (exported fields of pkg/parser nodes only) as the
 // S-expression Compile.v decodes: exactly what compiler.go looks at.
 
-func isNilNode(n parser.Node) bool {
+func bcIsNilNode(n parser.Node) bool {
 	return n == nil || (reflect.ValueOf(n).Kind() == reflect.Ptr && reflect.ValueOf(n).IsNil())
 }
 
@@ -76,7 +76,7 @@ func astExpr(n parser.Node) string {
 }
 
 func astOpt(n parser.Node) string {
-	if isNilNode(n) {
+	if bcIsNilNode(n) {
 		return "none"
 	}
 	return astExpr(n)
@@ -186,7 +186,7 @@ func c16ModelBytes(src string, c c17Compiled, in map[string]any, r *Result, mode
 	}
 	gconsts := c.bc.VerifConstants()
 	for i, k := range gconsts {
-		p := &dumpParser{s: k}
+		p := &bcDumpParser{s: k}
 		v, err := p.vmValue()
 		if err != nil {
 			v = "unparsable:" + k
